@@ -12,6 +12,10 @@ Decided:
      local guard) is without a live protector at a call that may collect while it is still used
      (rules/guardflow.py).  A report is a genuine defect: some program makes the collector reset
      the object while the native still uses it.
+  G4d detached values: the same analysis seeded with Gc-bearing values moved OUT of mutably borrowed heap state
+     (mem::take / replace / Option::take / pop / remove / swap_remove / drain / split_off behind a RefMut, or a
+     local function returning such a value): the heap stopped referencing them, so they need a guard
+     before the next call that may collect.
 Not decided: hazards that need a callback to remove the last heap reference to a caller/heap
 rooted object (optimistic assumption); correctness of Reset.
 """
@@ -253,25 +257,37 @@ def run(tier):
     ck.rule("G4.guardflow", "no fresh value is without a live protector at a may-collect call while still in use", floor=300)
     nfn, reports = G.analyse(fx)
     by_fn = {}
-    for f, bi, t, x, ua in reports:
-        by_fn.setdefault(f.parent, []).append((f, bi, t, x, ua))
+    for f, bi, t, x, ua, det in reports:
+        by_fn.setdefault(f.parent, []).append((f, bi, t, x, ua, det))
     for f in fx.fns.values():
         if not f.derived and any(G.type_has_guard(fx, t) for t in f.locals):
             ck.instance("G4.guardflow", f.path, None, ok=f.parent not in by_fn)
+    # G4d: the same flow analysis seeded with values that were moved out of shared heap state
+    ck.rule("G4d.detached", "a Gc-bearing value moved out of mutably borrowed heap state (mem::take / Option::take / pop / remove / drain behind a RefMut) "
+            "is guarded before the next call that may collect while it is still in use", floor=3)
+    for f, bi, t in G.DETACH_SITES:
+        ck.instance("G4d.detached", "%s: %s -> %s" % (f.path, (t[1].get("d") or "").split("::")[-1], fx.tys(f.locals[t[3][0]])), F.short_span(t[6]),
+                    ok=not any(r[5] for r in by_fn.get(f.parent, [])))
     for parent, reps in sorted(by_fn.items()):
-        f, bi, t, x, ua = reps[0]
+        f, bi, t, x, ua, det = reps[0]
         names = sorted({(r[0].var_name(r[3]) or "<temporary %s>" % fx.tys(r[0].locals[r[3]])) for r in reps})
-        ck.finding("G4.guardflow", "G4.guardflow/%s" % parent, F.short_span(t[6]),
-                   "`%s`: %s (from a callee-returned Guarded / local-guard allocation) has no live guard at the call of `%s` (%d site%s) and is %s: "
+        detached = any(r[5] for r in reps)
+        rule = "G4d.detached" if detached else "G4.guardflow"
+        origin = ("moved out of borrowed heap state, which was all that referenced it" if detached
+                  else "from a callee-returned Guarded / local-guard allocation")
+        ck.finding(rule, "%s/%s" % (rule, parent), F.short_span(t[6]),
+                   "`%s`: %s (%s) has no live guard at the call of `%s` (%d site%s) and is %s: "
                    "a collection there resets an object the native still uses"
-                   % (parent, ", ".join(names), (t[1].get("d") or "<fn pointer>").split("::")[-1], len(reps), "s" if len(reps) > 1 else "",
+                   % (parent, ", ".join(names), origin, (t[1].get("d") or "<fn pointer>").split("::")[-1], len(reps), "s" if len(reps) > 1 else "",
                       "used afterwards" if ua else "passed to that call"),
                    {"sites": [F.short_span(r[2][6]) for r in reps]})
     ctl = F.load_fixture()
     cn, cout = G.analyse(ctl)
-    bad = {f.path for f, bi, t, x, ua in cout}
+    bad = {r[0].path for r in cout}
     if "c02::unrooted_accumulator" not in bad or "c02::rooted_accumulator" in bad:
         ck.closed_fail.append("G4 control failed: fixture reports %s" % sorted(bad))
+    if "c02::detached_unrooted" not in bad or bad & {"c02::detached_rooted_by_helper", "c02::detached_rooted_by_loop"}:
+        ck.closed_fail.append("G4d control failed: fixture reports %s" % sorted(bad))
     ck.note("G4 analysed %d functions that hold guards; positive control reported %s" % (nfn, sorted(bad)))
     ck.assume("values read from parameters, interpreter fields or heap objects are rooted by the caller / the heap (not tracked)")
     ck.assume("every call through a function pointer may collect")
